@@ -664,11 +664,7 @@ Theorem C01_written_invariant :
      let I' := its_construct (graph_of mr') (graph_of mp') in
      (forall z, In z (hlist I') <-> In z (hlist I)) /\
      geq (fst (its_to_graphs I')) (fst (its_to_graphs I)) /\ geq (snd (its_to_graphs I')) (snd (its_to_graphs I))).
-Proof.
-  split.
-  - intros I I' W W' E. split; [apply hlist_ext; assumption|apply its_to_graphs_ext; assumption].
-  - exact rewritten_written.
-Qed.
+Proof. exact written_invariant_all. Qed.
 Print Assumptions C01_written_invariant.
 
 (** 42. the executable test the correspondence runs on what RDKit reads from a SMILES and from its re-rooted / fragment-shuffled
@@ -891,3 +887,14 @@ Theorem C01_light_builder_general : forall (m : rmol) (drop use : bool),
     (forall n, label g' n = option_map Some (label g n)) /\ (forall u v, adj g' u v = adj g u v).
 Proof. exact light_is_transform_general. Qed.
 Print Assumptions C01_light_builder_general.
+
+(** 60. summary for the classmethod MolToGraph.mol_to_graph(mol, drop_non_aam, light_weight, use_index_as_atom_map): under the
+        hypotheses of theorem 58 both of its builders return what transform returns - the detailed one the identical graph
+        (for it no hypothesis is needed, theorem 55), the light-weight one the same labels and bonds *)
+Theorem C01_builders_agree : forall (m : rmol) (drop use : bool),
+  NoDup (map fst (gen_nodes drop use m)) -> simple (gen_bonds drop use m) -> drop && negb use = false ->
+  exists g g', mol_to_graph drop use m = Some g /\ detailed_graph drop use m = Some g /\ light_graph drop use m = Some g' /\
+    g = LG (gen_nodes drop use m) (gen_bonds drop use m) /\
+    (forall n, label g' n = option_map Some (label g n)) /\ (forall u v, adj g' u v = adj g u v).
+Proof. exact builders_agree. Qed.
+Print Assumptions C01_builders_agree.
